@@ -2,6 +2,7 @@ package checks
 
 import (
 	"fmt"
+	"os"
 	"sort"
 	"strings"
 	"sync/atomic"
@@ -27,9 +28,12 @@ func schedHook(op *mcfs.Op) error {
 }
 
 type c16Op struct {
-	kind     string // cas set read pack
-	old, new string // value names: h1 h2 h3
+	kind     string // cas set read iter pack
+	old, new string // value names: h1 h2 h3, s1 (a symbolic value: shorter content than a hash)
 }
+
+// isRead: Reference (point lookup) and IterReferences (listing) are the two read entry points.
+func (o c16Op) isRead() bool { return o.kind == "read" || o.kind == "iter" }
 
 func (o c16Op) String() string {
 	switch o.kind {
@@ -39,6 +43,8 @@ func (o c16Op) String() string {
 		return fmt.Sprintf("Set(%s)", o.new)
 	case "read":
 		return "Read"
+	case "iter":
+		return "Iter"
 	}
 	return "PackRefs"
 }
@@ -54,6 +60,9 @@ type c16Event struct {
 // consistent with real-time order under a CAS-register specification.
 func c16Linearizable(init string, evs []c16Event, final string) bool {
 	n := len(evs)
+	if final == "not-found" {
+		final = "absent"
+	}
 	used := make([]bool, n)
 	var rec func(done int, val string) bool
 	rec = func(done int, val string) bool {
@@ -79,8 +88,8 @@ func c16Linearizable(init string, evs []c16Event, final string) bool {
 			nv := val
 			match := false
 			switch e.op.kind {
-			case "read":
-				match = e.result == val
+			case "read", "iter":
+				match = e.result == val || (val == "absent" && e.result == "not-found")
 			case "set":
 				match = e.result == "ok"
 				nv = e.op.new
@@ -110,70 +119,165 @@ func c16Linearizable(init string, evs []c16Event, final string) bool {
 	return rec(0, init)
 }
 
+// c16Harness is one concurrent program. The zero values of ref/inst/by give the
+// original family (one reference refs/heads/a, one storage instance per thread,
+// nothing else in the repository), whose names are the keys of listed findings.
+type c16Harness struct {
+	progs [][]c16Op
+	inst  []int  // storage instance of each thread (nil: one instance = one process per thread); equal numbers = goroutines sharing one Storage
+	ref   string // contended reference ("" = refs/heads/a)
+	by    bool   // bystander references exist (b loose, c packed-only): they must come out untouched
+	inits []string
+}
+
+func (h c16Harness) name(init string) string {
+	var names []string
+	for _, p := range h.progs {
+		var s []string
+		for _, o := range p {
+			s = append(s, o.String())
+		}
+		names = append(names, strings.Join(s, ";"))
+	}
+	n := fmt.Sprintf("init=%s threads=[%s]", init, strings.Join(names, " | "))
+	if h.inst != nil {
+		n += fmt.Sprintf(" instances=%v", h.inst)
+	}
+	if h.ref != "" {
+		n += " ref=" + h.ref
+	}
+	if h.by {
+		n += " +bystanders"
+	}
+	return n
+}
+
+const c16SymTarget = "refs/heads/zz"
+
 func runC16(c *fw.Ctx) {
 	maxPre := c.Pick(1, 2)
 	c.Bound("max_preemptions", maxPre)
-	c.SetRule("separate filesystem.Storage instances (= processes: they share only the mcfs tree; flock is modelled on inodes) run 2-3 threads of 1-2 operations {CheckAndSetReference, SetReference, Reference, PackRefs} on ONE reference that is initially loose / packed-only / both; every interleaving at filesystem-operation points within the preemption bound; each complete execution's call/return history must be linearizable as a CAS register, readers must never see not-found/empty/stale, and the final value (read by a fresh instance) must be the linearization's; distinct = (harness, outcome signature)")
-	c.Assume("process = storage instance sharing only the filesystem; mcfs conformance-replayed against osfs; cooperative scheduling at every filesystem call (flock, open, read, write, truncate, rename, remove, stat, readdir, close of writable/locked handles)")
+	c.SetRule("storage instances over one mcfs tree (separate instances = processes: they share only the filesystem, flock is modelled on inodes; a shared instance = goroutines of one process) run 2-3 threads of 1-2 operations {CheckAndSetReference, SetReference (hash or symbolic value), Reference, IterReferences, PackRefs} on ONE reference (refs/heads/a, or refs/heads/d/a nested in a directory) that is initially loose / packed-only / both / absent, alone or next to bystander references; every interleaving at filesystem-operation points within the preemption bound; each complete execution's call/return history must be linearizable as a CAS register, readers must never see not-found/empty/stale, the final value (read by a fresh instance) must be the linearization's and bystander references must be untouched; distinct = (harness, outcome signature)")
+	c.Assume("process = storage instance sharing only the filesystem; mcfs conformance-replayed against osfs; cooperative scheduling at every filesystem call (flock, open, read, write, truncate, rename, remove, stat, readdir, mkdir, close of writable/locked handles)")
 
 	n, err := mcfs.Conformance(c.Scratch(), 2)
 	c.Must(err, "mcfs/osfs conformance")
 	c.TracesValidated(n)
 
-	// initial worlds
-	g, dir := c.InitRepo("c16", "", false)
-	ids := g.BuildHistory([]fw.CommitSpec{
-		{Time: 1700000000, Files: map[string]fw.FileSpec{"f": {Data: "1\n"}}},
-		{Parents: []int{0}, Time: 1700000100, Files: map[string]fw.FileSpec{"f": {Data: "2\n"}}},
-		{Parents: []int{1}, Time: 1700000200, Files: map[string]fw.FileSpec{"f": {Data: "3\n"}}},
-		{Parents: []int{2}, Time: 1700000300, Files: map[string]fw.FileSpec{"f": {Data: "4\n"}}},
-	}, false)
-	hv := map[string]string{"h0": ids[0], "h1": ids[1], "h2": ids[2], "h3": ids[3]}
-	vh := map[string]string{}
-	for k, v := range hv {
-		vh[v] = k
+	// initial worlds, per (contended reference, bystanders)
+	var hv, vh map[string]string
+	type wkey struct {
+		ref  string
+		by   bool
+		init string
 	}
-	worlds := map[string]*mcfs.World{}
-	mkWorld := func(name string, f func()) {
-		f()
-		w := mcfs.NewWorld()
-		c.Must(w.Import(dir+"/.git", "/wt/.git"), "import")
-		w.RemoveSetup("/wt/.git/hooks")
-		worlds[name] = w
-	}
-	mkWorld("loose", func() { g.MustRun("update-ref", "refs/heads/a", hv["h1"]) })
-	mkWorld("packed-only", func() { g.MustRun("pack-refs", "--all") })
-	mkWorld("both(stale packed)", func() {
-		g.MustRun("update-ref", "refs/heads/a", hv["h0"])
+	worlds := map[wkey]*mcfs.World{}
+	mkWorlds := func(ref string, by bool) {
+		g, dir := c.InitRepo(fmt.Sprintf("c16-%d", len(worlds)), "", false)
+		ids := g.BuildHistory([]fw.CommitSpec{
+			{Time: 1700000000, Files: map[string]fw.FileSpec{"f": {Data: "1\n"}}},
+			{Parents: []int{0}, Time: 1700000100, Files: map[string]fw.FileSpec{"f": {Data: "2\n"}}},
+			{Parents: []int{1}, Time: 1700000200, Files: map[string]fw.FileSpec{"f": {Data: "3\n"}}},
+			{Parents: []int{2}, Time: 1700000300, Files: map[string]fw.FileSpec{"f": {Data: "4\n"}}},
+		}, false)
+		hv = map[string]string{"h0": ids[0], "h1": ids[1], "h2": ids[2], "h3": ids[3]}
+		vh = map[string]string{}
+		for k, v := range hv {
+			vh[v] = k
+		}
+		snap := func(init string) {
+			w := mcfs.NewWorld()
+			c.Must(w.Import(dir+"/.git", "/wt/.git"), "import")
+			w.RemoveSetup("/wt/.git/hooks")
+			worlds[wkey{ref, by, init}] = w
+		}
+		if by {
+			// c exists only in packed-refs, b only as a loose file
+			g.MustRun("update-ref", "refs/heads/c", hv["h0"])
+			g.MustRun("pack-refs", "--all")
+			g.MustRun("update-ref", "refs/heads/b", hv["h0"])
+		}
+		snap("absent")
+		g.MustRun("update-ref", ref, hv["h1"])
+		snap("loose")
 		g.MustRun("pack-refs", "--all")
-		g.MustRun("update-ref", "refs/heads/a", hv["h1"])
-	})
+		if by {
+			g.MustRun("update-ref", "refs/heads/b", hv["h3"])
+			g.MustRun("update-ref", "refs/heads/b", hv["h0"]) // loose again, same value
+		}
+		snap("packed-only")
+		g.MustRun("update-ref", ref, hv["h0"])
+		g.MustRun("pack-refs", "--all")
+		g.MustRun("update-ref", ref, hv["h1"])
+		if by {
+			g.MustRun("update-ref", "refs/heads/b", hv["h3"])
+			g.MustRun("update-ref", "refs/heads/b", hv["h0"])
+		}
+		snap("both(stale packed)")
+	}
+	const nested = "refs/heads/d/a"
+	mkWorlds("refs/heads/a", false)
+	mkWorlds("refs/heads/a", true)
+	mkWorlds(nested, false)
 	inits := []string{"loose", "packed-only", "both(stale packed)"}
 
 	cas12 := c16Op{"cas", "h1", "h2"}
 	cas13 := c16Op{"cas", "h1", "h3"}
 	cas23 := c16Op{"cas", "h2", "h3"}
+	set1 := c16Op{"set", "", "h1"}
 	set2 := c16Op{"set", "", "h2"}
+	set3 := c16Op{"set", "", "h3"}
+	setS := c16Op{"set", "", "s1"}
 	read := c16Op{kind: "read"}
+	iter := c16Op{kind: "iter"}
 	pack := c16Op{kind: "pack"}
-	type harness struct{ progs [][]c16Op }
+	type harness = c16Harness
 	hs := []harness{
-		{[][]c16Op{{cas12}, {cas13}}},
-		{[][]c16Op{{cas12}, {read}}},
-		{[][]c16Op{{set2}, {read}}},
-		{[][]c16Op{{cas12}, {pack}}},
-		{[][]c16Op{{pack}, {read}}},
-		{[][]c16Op{{cas12}, {cas23}}},
-		{[][]c16Op{{cas12, cas23}, {read, read}}},
-		{[][]c16Op{{cas12}, {cas13}, {read}}},
-		{[][]c16Op{{cas12}, {pack}, {read}}},
+		{progs: [][]c16Op{{cas12}, {cas13}}},
+		{progs: [][]c16Op{{cas12}, {read}}},
+		{progs: [][]c16Op{{set2}, {read}}},
+		{progs: [][]c16Op{{cas12}, {pack}}},
+		{progs: [][]c16Op{{pack}, {read}}},
+		{progs: [][]c16Op{{cas12}, {cas23}}},
+		{progs: [][]c16Op{{cas12, cas23}, {read, read}}},
+		{progs: [][]c16Op{{cas12}, {cas13}, {read}}},
+		{progs: [][]c16Op{{cas12}, {pack}, {read}}},
+		// the listing as the reader (loose walk, then packed-refs, first one wins)
+		{progs: [][]c16Op{{pack}, {iter}}},
+		{progs: [][]c16Op{{cas12}, {iter}}},
+		{progs: [][]c16Op{{cas12}, {pack}, {iter}}},
+		// values of different length (a symbolic value is shorter than a hash), unconditional writers
+		{progs: [][]c16Op{{set2}, {setS}}},
+		{progs: [][]c16Op{{setS}, {cas12}, {read}}},
+		// a second operation of an instance after other processes changed loose AND packed state
+		{progs: [][]c16Op{{cas12, pack}, {read, read}}},
+		{progs: [][]c16Op{{set2, pack}, {iter, iter}}},
+		// goroutines sharing one Storage instance (writers; two readers next to a writer process)
+		{progs: [][]c16Op{{cas12}, {cas13}}, inst: []int{0, 0}},
+		{progs: [][]c16Op{{cas12}, {read}, {read}}, inst: []int{0, 1, 1}},
+		{progs: [][]c16Op{{set2}, {pack}, {read}}, inst: []int{0, 0, 0}},
+		// the reference does not exist yet: creation races
+		{progs: [][]c16Op{{set2}, {set3}}, inits: []string{"absent"}},
+		{progs: [][]c16Op{{set1}, {cas12}, {read}}, inits: []string{"absent"}},
+		{progs: [][]c16Op{{set2}, {iter}}, inits: []string{"absent"}},
+		// a reference nested in a directory: PackRefs prunes the emptied directory, writers re-create it
+		{progs: [][]c16Op{{cas12}, {pack}, {read}}, ref: nested},
+		{progs: [][]c16Op{{set2}, {pack}}, ref: nested},
+		{progs: [][]c16Op{{set2}, {set3}}, ref: nested, inits: []string{"absent"}},
+		// two packers and a writer next to bystander references: whatever happens to a, b and c must survive
+		{progs: [][]c16Op{{pack}, {pack}, {set2}}, by: true},
+		{progs: [][]c16Op{{cas12}, {pack}, {iter}}, by: true},
 	}
 	if c.Thorough() {
 		hs = append(hs,
-			harness{[][]c16Op{{set2}, {cas13}, {read}}},
-			harness{[][]c16Op{{cas12, pack}, {cas13, read}}},
-			harness{[][]c16Op{{pack}, {pack}, {cas12}}},
-			harness{[][]c16Op{{set2}, {pack}, {read, read}}},
+			harness{progs: [][]c16Op{{set2}, {cas13}, {read}}},
+			harness{progs: [][]c16Op{{cas12, pack}, {cas13, read}}},
+			harness{progs: [][]c16Op{{pack}, {pack}, {cas12}}},
+			harness{progs: [][]c16Op{{set2}, {pack}, {read, read}}},
+			harness{progs: [][]c16Op{{setS}, {set2}, {iter}}},
+			harness{progs: [][]c16Op{{cas12, pack}, {cas13, iter}}, by: true},
+			harness{progs: [][]c16Op{{cas12, cas23}, {pack}, {read, read}}, ref: nested},
+			harness{progs: [][]c16Op{{cas12}, {cas13}, {read}}, inst: []int{0, 0, 0}},
 		)
 	}
 	type job struct {
@@ -181,56 +285,89 @@ func runC16(c *fw.Ctx) {
 		init string
 	}
 	var jobs []job
-	for _, in := range inits {
-		for _, h := range hs {
+	for _, h := range hs {
+		ins := h.inits
+		if ins == nil {
+			ins = inits
+		}
+		for _, in := range ins {
 			jobs = append(jobs, job{h, in})
 		}
 	}
 	c.Bound("harnesses", len(jobs))
 	deadline := time.Now().Add(time.Duration(c.Pick(75, 1100)) * time.Second)
 	var totalExec, totalPoints atomic.Int64
-	refName := plumbing.ReferenceName("refs/heads/a")
 	c.ParDo(len(jobs), 0, func(ji int) {
 		j := jobs[ji]
-		var names []string
-		for _, p := range j.h.progs {
-			var s []string
-			for _, o := range p {
-				s = append(s, o.String())
-			}
-			names = append(names, strings.Join(s, ";"))
+		refStr := j.h.ref
+		if refStr == "" {
+			refStr = "refs/heads/a"
 		}
-		hname := fmt.Sprintf("init=%s threads=[%s]", j.init, strings.Join(names, " | "))
+		refName := plumbing.ReferenceName(refStr)
+		hname := j.h.name(j.init)
+		initVal := "h1"
+		if j.init == "absent" {
+			initVal = "absent"
+		}
+		base := worlds[wkey{refStr, j.h.by, j.init}]
+		if base == nil {
+			fw.Abort("no world for %s", hname)
+		}
+		mkRef := func(v string) *plumbing.Reference {
+			if v == "s1" {
+				return plumbing.NewSymbolicReference(refName, c16SymTarget)
+			}
+			return plumbing.NewHashReference(refName, plumbing.NewHash(hv[v]))
+		}
+		valOf := func(r *plumbing.Reference) string {
+			if r.Type() == plumbing.SymbolicReference {
+				if r.Target() == c16SymTarget {
+					return "s1"
+				}
+				return fmt.Sprintf("garbage:%q", "ref: "+r.Target().String())
+			}
+			if v, ok := vh[r.Hash().String()]; ok {
+				return v
+			}
+			return "garbage:" + r.Hash().String()
+		}
 		outcomes := map[string]bool{}
 		body := func(x *vsched.Exec) func(*vsched.Exec) string {
-			w := worlds[j.init].Clone()
+			w := base.Clone()
 			w.SetHook(schedHook)
 			var clock atomic.Int64
 			events := make([][]c16Event, len(j.h.progs))
+			insts := map[int]*filesystem.Storage{}
 			for ti, prog := range j.h.progs {
 				ti, prog := ti, prog
-				st := filesystem.NewStorage(w.View("/wt/.git", fmt.Sprintf("proc%d", ti)), cache.NewObjectLRUDefault())
+				ii := ti
+				if j.h.inst != nil {
+					ii = j.h.inst[ti]
+				}
+				st := insts[ii]
+				if st == nil {
+					st = filesystem.NewStorage(w.View("/wt/.git", fmt.Sprintf("proc%d", ii)), cache.NewObjectLRUDefault())
+					insts[ii] = st
+				}
 				x.Go(fmt.Sprintf("p%d", ti), func() any {
 					for _, op := range prog {
 						ev := c16Event{thread: ti, op: op, call: clock.Add(1)}
 						switch op.kind {
 						case "cas":
-							err := st.CheckAndSetReference(plumbing.NewHashReference(refName, plumbing.NewHash(hv[op.new])),
-								plumbing.NewHashReference(refName, plumbing.NewHash(hv[op.old])))
-							ev.result = c16Err(err)
+							ev.result = c16Err(st.CheckAndSetReference(mkRef(op.new), mkRef(op.old)))
 						case "set":
-							ev.result = c16Err(st.SetReference(plumbing.NewHashReference(refName, plumbing.NewHash(hv[op.new]))))
+							ev.result = c16Err(st.SetReference(mkRef(op.new)))
 						case "pack":
 							ev.result = c16Err(st.PackRefs())
 						case "read":
 							r, err := st.Reference(refName)
 							if err != nil {
 								ev.result = c16Err(err)
-							} else if v, ok := vh[r.Hash().String()]; ok {
-								ev.result = v
 							} else {
-								ev.result = "garbage:" + r.Hash().String()
+								ev.result = valOf(r)
 							}
+						case "iter":
+							ev.result = c16Listed(st, refName, valOf)
 						}
 						ev.ret = clock.Add(1)
 						events[ti] = append(events[ti], ev)
@@ -257,8 +394,10 @@ func runC16(c *fw.Ctx) {
 				fresh := filesystem.NewStorage(w.View("/wt/.git", "final"), cache.NewObjectLRUDefault())
 				if r, err := fresh.Reference(refName); err != nil {
 					final = c16Err(err)
-				} else if v, ok := vh[r.Hash().String()]; ok {
+				} else if v := valOf(r); !strings.HasPrefix(v, "garbage") {
 					final = v
+				} else if r.Type() == plumbing.SymbolicReference {
+					final = v // names the mangled content
 				} else {
 					final = "garbage"
 				}
@@ -267,30 +406,64 @@ func runC16(c *fw.Ctx) {
 					sig = append(sig, fmt.Sprintf("%s=%s", e.op, e.result))
 				}
 				sigs := strings.Join(sig, " ") + " final=" + final
+				if j.h.by {
+					// bystanders: b was loose, c packed-only, both h0; they may have been packed, never changed
+					for _, bn := range []string{"b", "c"} {
+						got := c16Listed(fresh, plumbing.ReferenceName("refs/heads/"+bn), valOf)
+						if r, err := fresh.Reference(plumbing.ReferenceName("refs/heads/" + bn)); err != nil {
+							got += "/" + c16Err(err)
+						} else {
+							got += "/" + valOf(r)
+						}
+						sigs += " " + bn + "=" + got
+					}
+				}
 				outcomes[sigs] = true
 				// specific anomalies first (they name the cause)
 				for _, e := range all {
-					if e.op.kind == "read" && (e.result == "not-found" || strings.HasPrefix(e.result, "error") || strings.HasPrefix(e.result, "garbage")) {
-						return fmt.Sprintf("reader observed %s (history: %s)", e.result, sigs)
+					if e.op.isRead() && ((e.result == "not-found" && initVal != "absent") || strings.HasPrefix(e.result, "error") || strings.HasPrefix(e.result, "garbage")) {
+						return fmt.Sprintf("reader observed %s (history: %s)", c16Kind(e.result), sigs)
 					}
-					if e.op.kind != "read" && strings.HasPrefix(e.result, "error") {
+					if !e.op.isRead() && strings.HasPrefix(e.result, "error") {
 						return fmt.Sprintf("%s failed with %s (history: %s)", e.op, e.result, sigs)
 					}
 				}
-				if !c16Linearizable("h1", all, "") {
+				if strings.HasPrefix(final, "garbage") || strings.HasPrefix(final, "error") {
+					return "the reference is left unreadable or mangled (history: " + sigs + ")"
+				}
+				if j.h.by && !strings.HasSuffix(sigs, " b=h0/h0 c=h0/h0") {
+					return "a bystander reference was lost or changed (history: " + sigs + ")"
+				}
+				if !c16Linearizable(initVal, all, "") {
+					// cause 0 (reference initially absent, where not-found is a legal first answer): a read
+					// answered not-found after the reference had been created
+					if initVal == "absent" {
+						var rest []c16Event
+						dropped := 0
+						for _, e := range all {
+							if e.op.isRead() && e.result == "not-found" {
+								dropped++
+								continue
+							}
+							rest = append(rest, e)
+						}
+						if dropped > 0 && c16Linearizable(initVal, rest, "") {
+							return "reader observed not-found (history: " + sigs + ")"
+						}
+					}
 					// cause 1: a read returned the value packed-refs held at the start although it was superseded
 					stale := map[string]string{"packed-only": "h1", "both(stale packed)": "h0"}[j.init]
 					if stale != "" {
 						var rest []c16Event
 						dropped := 0
 						for _, e := range all {
-							if e.op.kind == "read" && e.result == stale {
+							if e.op.isRead() && e.result == stale {
 								dropped++
 								continue
 							}
 							rest = append(rest, e)
 						}
-						if dropped > 0 && c16Linearizable("h1", rest, "") {
+						if dropped > 0 && c16Linearizable(initVal, rest, "") {
 							return "reader observed the stale packed value (history: " + sigs + ")"
 						}
 					}
@@ -302,17 +475,17 @@ func runC16(c *fw.Ctx) {
 					if hasPack {
 						var rest []c16Event
 						for _, e := range all {
-							if e.op.kind != "read" {
+							if !e.op.isRead() {
 								rest = append(rest, e)
 							}
 						}
-						if c16Linearizable("h1", rest, "") && !c16Linearizable("h1", rest, final) {
+						if c16Linearizable(initVal, rest, "") && !c16Linearizable(initVal, rest, final) {
 							return "update lost under concurrent PackRefs (history: " + sigs + ")"
 						}
 					}
 					return "history not linearizable as a CAS register: " + sigs
 				}
-				if !c16Linearizable("h1", all, final) {
+				if !c16Linearizable(initVal, all, final) {
 					hasPack := false
 					for _, e := range all {
 						hasPack = hasPack || e.op.kind == "pack"
@@ -332,6 +505,13 @@ func runC16(c *fw.Ctx) {
 				kind = kind[:i]
 			}
 			c.Fail(hname+" :: "+kind, hname+": "+f.What, map[string]any{"harness": hname, "choices": f.Choices, "log": f.Log})
+			if p := os.Getenv("VERIF_C16_KEYS"); p != "" {
+				// debugging aid: every key with one history, beyond the 25 the framework prints
+				if fh, err := os.OpenFile(p, os.O_APPEND|os.O_CREATE|os.O_WRONLY, 0o644); err == nil {
+					fmt.Fprintf(fh, "%s\t%s\n", hname+" :: "+kind, f.What)
+					fh.Close()
+				}
+			}
 			return true // collect every anomaly kind of this harness
 		}, func(msg string) { c.EngineError("%s: %s", hname, msg) })
 		totalExec.Add(int64(st.Executions))
@@ -348,6 +528,38 @@ func runC16(c *fw.Ctx) {
 	c.States(int(totalExec.Load()))
 	c.Transitions(int(totalPoints.Load()))
 	c.Extra("schedules", totalExec.Load())
+}
+
+// c16Listed reads one reference through the listing entry point.
+func c16Listed(st *filesystem.Storage, name plumbing.ReferenceName, valOf func(*plumbing.Reference) string) string {
+	it, err := st.IterReferences()
+	if err != nil {
+		return c16Err(err)
+	}
+	defer it.Close()
+	res := "not-found"
+	err = it.ForEach(func(r *plumbing.Reference) error {
+		if r.Name() == name {
+			if res != "not-found" {
+				res = "garbage:listed twice"
+			} else {
+				res = valOf(r)
+			}
+		}
+		return nil
+	})
+	if err != nil {
+		return c16Err(err)
+	}
+	return res
+}
+
+// c16Kind keeps finding keys independent of the bytes of a mangled value.
+func c16Kind(result string) string {
+	if strings.HasPrefix(result, "garbage") {
+		return "garbage"
+	}
+	return result
 }
 
 func c16Err(err error) string {
